@@ -18,6 +18,7 @@ Encoding contract with spec/Genes.tla (nothing here judges an output):
 """
 from __future__ import annotations
 
+import json
 import math
 import os
 import sys
@@ -79,49 +80,103 @@ def _names(label):
     return str(label).split(",")
 
 
-def _build_bins(inp):
-    """A CopyNumArray whose rows carry exactly the index labels of the input: a default-index table with
-    filler rows at the missing labels, from which the filler rows are then filtered out (a filtered array)."""
+ROUTES = ("fresh", "masked", "permuted", "offset")
+
+
+def _routes_enabled():
+    """development aid for the binding demonstration: VERIF_C16_ROUTES=fresh restricts the construction routes"""
+    env = os.environ.get("VERIF_C16_ROUTES", "")
+    sel = tuple(r for r in env.split(",") if r in ROUTES)
+    return sel or ROUTES
+
+
+def _route_table(rows, cols, route, want_labels, decoy, empty):
+    """The table with exactly `rows` in this order, built by one of the construction routes; the routes differ
+    only in the row index labels:
+      fresh     from_rows: labels 0..n-1
+      masked    boolean-mask selection out of a larger table with decoy rows: gapped labels (the strictly increasing
+                `want_labels` when given and gapped, else a decoy in front of every other row and one behind the last)
+      permuted  rows entered in another order and restored by position, no reset_index: permuted labels
+      offset    labels from 1000
+      asis      (records without a route) the labels `want_labels` put on directly
+    """
     import numpy as np
     import pandas as pd
     from cnvlib.cnary import CopyNumArray as CNA
+    n = len(rows)
+    if n == 0:
+        return CNA(pd.DataFrame(empty))
+    if route == "asis":
+        labels = list(want_labels)
+        if len(set(labels)) == n and all(x < y for x, y in zip(labels, labels[1:])) and labels[0] >= 0 \
+                and labels != list(range(n)):
+            route = "masked"
+        elif labels == list(range(n)):
+            route = "fresh"
+        else:
+            df = pd.DataFrame.from_records(rows, columns=cols)
+            df.index = pd.Index(labels)
+            return CNA(df)
+    if route == "masked":
+        labels = list(want_labels) if want_labels is not None else []
+        if not (len(labels) == n and labels[0] >= 0 and all(x < y for x, y in zip(labels, labels[1:]))
+                and labels != list(range(n))):
+            labels, lab = [], 0
+            for k in range(n):
+                if k % 2 == 0:
+                    lab += 1                   # a decoy in front of every other row (and the first)
+                labels.append(lab)
+                lab += 1
+        big, keep, nxt = [], [], 0
+        at = dict(zip(labels, rows))
+        for lab in range(labels[-1] + 1):
+            while labels[nxt] < lab:
+                nxt += 1
+            if lab in at:
+                big.append(at[lab])
+                keep.append(True)
+            else:
+                big.append(decoy(rows[nxt], False))
+                keep.append(False)
+        big.append(decoy(rows[-1], True))
+        keep.append(False)
+        arr = CNA.from_rows(big, columns=cols)[np.array(keep)]
+    elif route == "permuted" and n > 1:
+        perm = list(range(n))[::-1] if n < 4 else [k for k in range(n) if k % 3 == 1] + \
+            [k for k in range(n) if k % 3 == 2] + [k for k in range(n) if k % 3 == 0]
+        arr = CNA.from_rows([rows[k] for k in perm], columns=cols)
+        inv = [0] * n
+        for pos, k in enumerate(perm):
+            inv[k] = pos
+        arr.data = arr.data.iloc[inv]          # intended order again, labels stay permuted
+    else:
+        arr = CNA.from_rows(rows, columns=cols)
+        if route in ("offset", "permuted"):
+            arr.data.index = arr.data.index + 1000
+    if len(arr) != n or [(c, int(a), int(b)) for c, a, b in zip(arr.chromosome, arr.start, arr.end)] != \
+            [(r[0], r[1], r[2]) for r in rows]:
+        raise MachineryError(f"table construction route {route} did not reproduce the rows")
+    return arr
+
+
+def _build_bins(inp):
+    """The bin table by the record's construction route; returns (array, its actual index labels)."""
+    import pandas as pd
     bins, xc, naming = inp["bins"], inp["par"]["xc"], inp.get("naming", "chr")
     cols = ["chromosome", "start", "end", "gene", "log2", "depth", "weight"]
-    if not bins:
-        return CNA(pd.DataFrame({"chromosome": pd.Series([], dtype=str), "start": pd.Series([], dtype=int),
-                                 "end": pd.Series([], dtype=int), "gene": pd.Series([], dtype=str),
-                                 "log2": pd.Series([], dtype=float), "depth": pd.Series([], dtype=float),
-                                 "weight": pd.Series([], dtype=float)}))
-    labels = [b[4] for b in bins]
-    by_label = {b[4]: b for b in bins}
-    if len(by_label) != len(bins) or any(x >= y for x, y in zip(labels, labels[1:])):
-        # not a filtered default index (outside the premise): give the rows these labels directly
-        rows = [(_chrom_name(b[0], xc, naming), b[1], b[2], ",".join(b[3]), b[5] / XU, b[7] / DU, b[6] / WU) for b in bins]
-        df = pd.DataFrame.from_records(rows, columns=cols)
-        df.index = pd.Index(labels)
-        return CNA(df)
-    rows, keep = [], []
-    nxt = 0
-    for lab in range(labels[-1] + 1):
-        while bins[nxt][4] < lab:
-            nxt += 1
-        b = by_label.get(lab)
-        if b is None:
-            f = bins[nxt]      # filler row: sits in front of the next real row, filtered out below
-            rows.append((_chrom_name(f[0], xc, naming), f[1], f[1] + 1, "Filler", 0.0, 1.0, 1.0))
-            keep.append(False)
-        else:
-            rows.append((_chrom_name(b[0], xc, naming), b[1], b[2], ",".join(b[3]), b[5] / XU, b[7] / DU, b[6] / WU))
-            keep.append(True)
-    arr = CNA.from_rows(rows, columns=cols)
-    if all(keep):
-        return arr
-    return arr[np.array(keep)]
+    empty = {"chromosome": pd.Series([], dtype=str), "start": pd.Series([], dtype=int), "end": pd.Series([], dtype=int),
+             "gene": pd.Series([], dtype=str), "log2": pd.Series([], dtype=float), "depth": pd.Series([], dtype=float),
+             "weight": pd.Series([], dtype=float)}
+    rows = [(_chrom_name(b[0], xc, naming), b[1], b[2], ",".join(b[3]), b[5] / XU, b[7] / DU, b[6] / WU) for b in bins]
+
+    def decoy(r, trailing):
+        return (r[0], r[2] + 5, r[2] + 9, "Decoy", 0.0, 1.0, 1.0) if trailing else (r[0], r[1], r[1] + 1, "Decoy", 0.0, 1.0, 1.0)
+    arr = _route_table(rows, cols, inp.get("route", "asis"), [b[4] for b in bins], decoy, empty)
+    return arr, [int(x) for x in arr.data.index]
 
 
 def _build_segs(inp):
     import pandas as pd
-    from cnvlib.cnary import CopyNumArray as CNA
     par, naming = inp["par"], inp.get("naming", "chr")
     cols = ["chromosome", "start", "end", "gene", "log2"] + (["probes", "weight"] if par["segcols"] else [])
     rows = []
@@ -130,27 +185,34 @@ def _build_segs(inp):
         if par["segcols"]:
             row += (t[5], t[4] / WU)
         rows.append(row)
-    if not rows:
-        d = {"chromosome": pd.Series([], dtype=str), "start": pd.Series([], dtype=int), "end": pd.Series([], dtype=int),
+    empty = {"chromosome": pd.Series([], dtype=str), "start": pd.Series([], dtype=int), "end": pd.Series([], dtype=int),
              "gene": pd.Series([], dtype=str), "log2": pd.Series([], dtype=float)}
-        if par["segcols"]:
-            d["probes"] = pd.Series([], dtype=int)
-            d["weight"] = pd.Series([], dtype=float)
-        return CNA(pd.DataFrame(d))
-    return CNA.from_rows(rows, columns=cols)
+    if par["segcols"]:
+        empty["probes"] = pd.Series([], dtype=int)
+        empty["weight"] = pd.Series([], dtype=float)
+
+    def decoy(r, trailing):
+        d = (r[0], r[2] + 5, r[2] + 9, "-", 0.0) if trailing else (r[0], r[1], r[1] + 1, "-", 0.0)
+        return d + ((1, 1.0) if par["segcols"] else ())
+    return _route_table(rows, cols, inp.get("sroute", "fresh"), None, decoy, empty)
 
 
 def execute(inp):
     """Run one operation of the real cnvlib on the encoded input; return the full record."""
     import numpy as np
-    rec = {"op": inp["op"], "bins": inp["bins"], "segs": inp["segs"], "par": inp["par"],
-           "naming": inp.get("naming", "chr"), "out": [], "err": ""}
+    rec = {"op": inp["op"], "bins": [list(b) for b in inp["bins"]], "segs": inp["segs"], "par": inp["par"],
+           "naming": inp.get("naming", "chr"), "route": inp.get("route", "asis"), "sroute": inp.get("sroute", "fresh"),
+           "out": [], "err": ""}
     par = rec["par"]
     xc, naming = par["xc"], rec["naming"]
     cid = {_chrom_name(c, xc, naming): c for c in {b[0] for b in rec["bins"]} | {t[0] for t in rec["segs"]}}
     pos = {(_chrom_name(b[0], xc, naming), b[1], b[2]): k + 1 for k, b in enumerate(rec["bins"])}
+    # the tables are built outside the try: a failing construction is a harness problem, not an outcome
+    arr, labels = _build_bins(rec)
+    for b, lab in zip(rec["bins"], labels):
+        b[4] = lab                              # the record states the index labels the table really has
+    segarr = _build_segs(rec) if rec["op"] in ("genemetrics_seg", "breaks") else None
     try:
-        arr = _build_bins(rec)
         op = rec["op"]
         if op == "by_gene":
             out = []
@@ -167,7 +229,7 @@ def execute(inp):
                                                          res["log2"], res["depth"], res["weight"])]
         elif op in ("genemetrics", "genemetrics_seg"):
             from cnvlib import reports
-            segs = _build_segs(rec) if op == "genemetrics_seg" else None
+            segs = segarr if op == "genemetrics_seg" else None
             tab = reports.do_genemetrics(arr, segs, threshold=par["tn"] / par["td"], min_probes=par["minp"],
                                          skip_low=par["skip"], is_haploid_x_reference=par["hap"],
                                          is_sample_female=par["female"])
@@ -182,7 +244,7 @@ def execute(inp):
             rec["out"] = out
         elif op == "breaks":
             from cnvlib import reports
-            tab = reports.do_breaks(arr, _build_segs(rec), par["minp"])
+            tab = reports.do_breaks(arr, segarr, par["minp"])
             rec["out"] = [[_names(g), cid.get(c, 0), _int(loc), _enc(ch, XU), _int(pl), _int(pr)]
                           for g, c, loc, ch, pl, pr in zip(tab["gene"], tab["chromosome"], tab["location"], tab["change"],
                                                            tab["probes_left"], tab["probes_right"])]
@@ -262,6 +324,15 @@ def _mc_inputs(ctx, module, cfg, timeout, tag):
     os.remove(r.dump_path)
     print(f"  [c16] dump parsed: {len(inputs)} inputs in {time.time() - t1:.1f}s", file=sys.stderr)
     return r, inputs
+
+
+def assign_routes(inputs, start=0):
+    """construction route as an input dimension: rotate over the routes, table by table (bins and segments apart)"""
+    routes = _routes_enabled()
+    for k, t in enumerate(inputs):
+        t["route"] = routes[(start + k) % len(routes)]
+        t["sroute"] = routes[((start + k) // len(routes) + (start + k)) % len(routes)] if t["segs"] else "fresh"
+    return inputs
 
 
 def _bin_py(b):
@@ -473,7 +544,8 @@ def _boundary_counters(ctx, rec):
 def run(ctx: Ctx):
     thorough = ctx.tier == "thorough"
     ctx.rule = ("direction 1: every state of MC_Genes (all label sequences per chromosome satisfying GenesContiguous x "
-                "row-index mode x operation x parameters [x segment cut set]) replayed into cnvlib; direction 2: seeded "
+                "row-index mode x operation x parameters [x segment cut set]) replayed into cnvlib, each by one of four "
+                "table construction routes (rotating; the record states the index labels the table really had); direction 2: seeded "
                 "structured random tables (1..5 chromosomes, 0..12 genes of 1..10 bins, ignored bins anywhere, filtered "
                 "index, comma junctions, thresholds incl. exact gene means, min_probes, skip_low, sex adjustment, segments "
                 "cut at bin boundaries). A case is distinct by (op, bins, segments, parameters, naming); non-trivial when "
@@ -485,6 +557,8 @@ def run(ctx: Ctx):
         r, inputs = _mc_inputs(ctx, "MC_Genes", cfg, 3000, f"mc{g}")
         if len(inputs) * 2 != r.distinct:
             raise MachineryError(f"dump replay: {len(inputs)} ret states parsed, TLC reports {r.distinct} states")
+        inputs.sort(key=lambda t: json.dumps([t["op"], t["bins"], t["segs"], t["par"]], sort_keys=True))   # dump order varies
+        assign_routes(inputs, start=g)
         t1 = time.time()
         recs = ctx.execute(execute, inputs)
         print(f"  [c16] group {g}: {len(recs)} real calls in {time.time() - t1:.1f}s", file=sys.stderr)
@@ -504,23 +578,28 @@ def run(ctx: Ctx):
     ctx.exhaustive = "; ".join(names) + " -- every dumped transition replayed"
     n_rand = 20000 if thorough else 2500
     t1 = time.time()
-    rnd = ctx.execute(execute, random_inputs(ctx, n_rand))
+    rnd = ctx.execute(execute, assign_routes(random_inputs(ctx, n_rand), start=1))
     print(f"  [c16] random: {len(rnd)} real calls in {time.time() - t1:.1f}s", file=sys.stderr)
     all_records += rnd
     for rec in all_records:
-        ctx.count_input([rec["op"], rec["bins"], rec["segs"], rec["par"], rec["naming"]],
+        ctx.count_input([rec["op"], rec["bins"], rec["segs"], rec["par"], rec["naming"], rec["route"], rec["sroute"]],
                         nontrivial=any(n not in IGNORED for b in rec["bins"] for n in b[3]))
         _boundary_counters(ctx, rec)
+        ctx.bump("route_" + rec["route"])
+        ctx.bump("route_" + rec["route"] + ":" + rec["op"])
+        if rec["segs"]:
+            ctx.bump("seg_route_" + rec["sroute"])
     for rec in (all_records[0], all_records[len(all_records) // 2], rnd[0], rnd[2], rnd[4]):
         ctx.sample(rec)
     ctx.validate(TRACE, all_records, batch=20000)
     ctx.trusted_base = ["TLC 1.8 evaluation of spec/Genes.tla",
-                        "harness construction of CopyNumArray tables (filler rows filtered out to obtain the index labels)",
+                        "harness construction of CopyNumArray tables by four routes (fresh / masked out of a table with "
+                        "decoy rows / permuted and restored by position / offset): same rows, different index labels",
                         "harness projection of results (rows located by chromosome/start/end; gene labels split on commas; "
                         "reals as floor + 1e-6 fraction of the value times 8 / 8 / 4)",
                         "Python float division tn/td for the threshold; JSON encoding (ints < 2^31)"]
     ctx.assumptions = ["premise GenesContiguous (every named gene's bins consecutive on one chromosome up to ignorable "
-                       "bins), tables sorted with disjoint bins and increasing index labels, positive total weight per "
+                       "bins), tables sorted with disjoint bins and distinct index labels, positive total weight per "
                        "judged group, segment ends not cutting a bin; other records are counted out_of_scope",
                        "comma-joined labels are judged on the per-gene first..last clauses only",
                        "with segments, min_probes is left free between the part's bin count and the segment's probes",
